@@ -1260,13 +1260,23 @@ fn check_spec_reserved_keys(key: &[u8], mut value: &[u8]) -> Result<(), Error> {
             Ipv6Addr::decode(&mut value)?;
         }
         b"secp256k1" => {
+            // the entry must hold a valid secp256k1 public key
+            let _public_key = Bytes::decode(&mut value)?;
             #[cfg(all(feature = "k256", not(feature = "rust-secp256k1")))]
-            <Enr<k256::ecdsa::SigningKey>>::decode(&mut value)?;
+            <k256::ecdsa::SigningKey as EnrKeyUnambiguous>::decode_public(&_public_key)?;
             #[cfg(feature = "rust-secp256k1")]
-            <Enr<secp256k1::SecretKey>>::decode(&mut value)?;
+            <secp256k1::SecretKey as EnrKeyUnambiguous>::decode_public(&_public_key)?;
         }
-        _ => return Ok(()),
+        _ => {
+            // every other value must still be one well-formed RLP item
+            let header = Header::decode(&mut value)?;
+            value.advance(header.payload_length);
+        }
     };
+    // nothing may follow the item
+    if !value.is_empty() {
+        return Err(Error::InvalidRlpData(DecoderError::UnexpectedLength));
+    }
     Ok(())
 }
 
